@@ -389,6 +389,10 @@ impl Divan {
 
                     if should_compute_stats {
                         let stats = bench_context.compute_stats();
+
+                        #[cfg(divan_verif)]
+                        crate::verif::tap_stats(&stats, self.bytes_format);
+
                         tree_painter.borrow_mut().finish_leaf(
                             is_last_thread_count,
                             &stats,
